@@ -59,6 +59,7 @@ void bn_lag(bn_t *c, const bn_t *a, const bn_t b, size_t n) {
             if (i == 0) {
 		        bn_set_dig(t[1], 1);
                 bn_sub(c[0], b, a[i]);
+                bn_mod(c[0], c[0], b);
             } else {
                 for (j = 0; j <= i; j++) {
                     bn_copy(t[j + 1], c[j]);
